@@ -52,7 +52,16 @@ Class SfEq (A B : Type) := sf_eqb : A -> B -> bool.
 #[export] Instance SfEq_N : SfEq N N := N.eqb.
 #[export] Instance SfEq_bool : SfEq bool bool := Bool.eqb.
 #[export] Instance SfEq_unit : SfEq unit unit := fun _ _ => true.
-#[export] Instance SfEq_opt : SfEq (option N) (option N) := opt_eqb.
+#[export] Instance SfEq_opt {A B} `{SfEq A B} : SfEq (option A) (option B) :=
+  fun a b => match a, b with Some x, Some y => sf_eqb x y | None, None => true | _, _ => false end.
+#[export] Instance SfEq_prod {A B C D} `{SfEq A C} `{SfEq B D} : SfEq (A * B) (C * D) :=
+  fun a b => sf_eqb (fst a) (fst b) && sf_eqb (snd a) (snd b).
+#[export] Instance SfEq_nat : SfEq nat nat := Nat.eqb.
+#[export] Instance SfEq_list {A B} `{SfEq A B} : SfEq (list A) (list B) :=
+  fix go (a : list A) (b : list B) : bool :=
+    match a, b with [] , [] => true | x :: a', y :: b' => sf_eqb x y && go a' b' | _, _ => false end.
+#[export] Instance SfEq_cmp : SfEq comparison comparison :=
+  fun a b => match a, b with Eq, Eq | Lt, Lt | Gt, Gt => true | _, _ => false end.
 #[export] Instance SfEq_res {A B} `{SfEq A B} : SfEq (res A) (res B) :=
   fun a b => match a, b with Ok x, Ok y => sf_eqb x y | Panic, Panic => true | Err _, Err _ => true | _, _ => false end.
 (* (error payloads are not compared: the translated functions never build one themselves) *)
